@@ -110,6 +110,16 @@ func c16Cases(tier string, seed uint64, flavor string) []lib.Case {
 			}
 		}
 	}
+	// cancellation while the healer is between its own context check and queueing a file
+	// (hook heal-wound sits exactly there): the healing goroutine sees the cancellation first
+	for _, dmg := range []string{"all", "last", "first"} {
+		for n := 1; n <= 9; n++ {
+			for rep := 0; rep < 4; rep++ {
+				add(c16Spec{Build: "files3", Damage: dmg, Consumer: "heal-good", Cancel: fmt.Sprintf("point:heal-wound:%d", n), Sched: "cancel-sleep", SchedSeed: lib.Mix(seed, uint64(i)), Procs: []int{4, 16}[rep%2]})
+				i++
+			}
+		}
+	}
 	cancelCases("files3", []string{"none", "first", "last", "all"}, 3, 1)
 	ev := 15
 	if tier == "thorough" {
@@ -264,6 +274,9 @@ func c16Run(c lib.Case, env *lib.Env) lib.Result {
 		sc.CancelPoint = parts[1]
 		fmt.Sscan(parts[2], &sc.CancelN)
 		sc.Cancel = cancel
+		if s.Sched == "cancel-sleep" {
+			sc.CancelSleep = 2 * time.Millisecond
+		}
 	case strings.HasPrefix(s.Cancel, "progress:"):
 		var n int
 		fmt.Sscanf(s.Cancel, "progress:%d", &n)
@@ -286,7 +299,7 @@ func c16Run(c lib.Case, env *lib.Env) lib.Result {
 	before := runtime.NumGoroutine()
 	v := lib.RunWithQuiescence(func() {
 		verr, panicked, stack = lib.Guard(func() error { return vctx.Validate(ctx, dir, sig) })
-	}, 90*time.Second)
+	}, 25*time.Second)
 	sc.Finish()
 	lib.SetHook(nil)
 	res.Add("validations", 1)
